@@ -22,11 +22,11 @@ package binary
 
 //@ spec (*BinaryProtocol).ConsumeTag
 //@   props C20 C06 C07
-//@   ensures bad: old(tagl(p)) == 0 ==> r3 != nil && p.Read == old(p.Read)
+//@   ensures bad: old(tagl(p)) == 0 ==> r3 != nil && p.Read == old(p.Read) && r0 == 0 && r1 == 0
 //@   ensures ok: old(tagl(p)) > 0 && old(tagv(p)) >> 3 >= 1 && old(tagv(p)) >> 3 <= 2147483647 ==> r3 == nil && \
 //@       r0 == proto.FieldNumber(old(tagv(p)) >> 3) && r1 == proto.WireType(old(tagv(p)) & 7) && r2 == old(tagl(p)) && p.Read == old(p.Read) + r2
-//@   ensures huge: old(tagl(p)) > 0 && old(tagv(p)) >> 3 > 2147483647 ==> r3 != nil && r0 == -1
-//@   ensures zero: old(tagl(p)) > 0 && old(tagv(p)) >> 3 == 0 ==> r3 != nil
+//@   ensures huge: old(tagl(p)) > 0 && old(tagv(p)) >> 3 > 2147483647 ==> r3 != nil && r0 == -1 && r1 == 0 && p.Read == old(p.Read) + old(tagl(p))
+//@   ensures zero: old(tagl(p)) > 0 && old(tagv(p)) >> 3 == 0 ==> r3 != nil && r0 == 0 && r1 == 0 && p.Read == old(p.Read) + old(tagl(p))      // (callers that ignore the error see field 0 / wire type VARINT)
 //@   ensures mono: old(p.Read) <= p.Read
 //@   modifies p.Read
 
